@@ -249,18 +249,22 @@ def attempt_row_changes(ctx: Ctx, prog: sf.SqlProgram) -> List[Tuple[str, str, D
     af.refine_from_callers(ctx, prog, ws)
     ctx.need(len(ws) >= 7, f'only {len(ws)} writers of attempts found')
     special = [l for l in af.zeroing_reasons(a.body)]
-    seen = set()
+    seen: Dict[tuple, int] = {}
     out = []
     zero = set(special)
     for w in sorted(ws, key=lambda w: not w.assigns):       # statements that set nothing (duplicate-key no-op) last: better witnesses first
-        for label, old, new, stored in af.transitions(a.body, w, special):
+        for _vi, label, old, new, stored, tag in af.transitions_tagged(a.body, w, special):
             key = (tuple(old[c] for c in af.COLS), tuple(stored[c] for c in af.COLS))
+            # tag is not None: the pair rests on an assumption about a value the call-chain analysis could not establish (not evidence by itself)
             if key not in seen:
-                seen.add(key)
-                out.append((w.wid, label, old, stored, new['reason'] in zero))
+                seen[key] = len(out)
+                out.append([w.wid, label, old, stored, new['reason'] in zero, tag is None])
+            elif tag is None and not out[seen[key]][5]:
+                out[seen[key]][:2] = [w.wid, label]
+                out[seen[key]][5] = True
     # witnesses are taken in this order: OLD rows that real histories produce first (reason set iff end set, not an activation timeout)
     out.sort(key=lambda p: ((p[2]['reason'] is None) != (p[2]['end_time'] is None), p[2]['reason'] in zero, p[3]['reason'] in zero, p[4]))
-    out = [p[:4] for p in out]
+    out = [tuple(p[:4]) + (p[5],) for p in out]
     _points_cache[id(prog)] = out
     ctx.unit('attempt_row_changes', len(out))
     return out
@@ -280,7 +284,7 @@ def check_guards_update(ctx: Ctx, r: sf.Routine, cons: str, st: N, facts: Tuple[
                 r.file, r.line_of(st), extra={'writer': wid, 'chain': label, 'old': ov, 'new': nv, 'diff': d, 'condition': fact_text(f)})
         return
     if verdict[0] == 'undecided':
-        raise AnalysisError(f'{cons}: the upsert is conditional on `{verdict[1]}`, which depends on data outside the attempt row; cannot decide whether increments are skipped')
+        raise AnalysisError(f'{cons}: the upsert is conditional on `{verdict[1]}`, which depends on data outside the attempt row or on an unestablished call-chain value; cannot decide whether increments are skipped')
     ctx.ok('R6', cons, {'conditions': [fact_text(f) for f in facts], 'row_changes_with_nonzero_difference': verdict[1]})
 
 
@@ -302,7 +306,7 @@ def _guard_verdict_update0(facts: Tuple[Fact, ...], points) -> tuple:
     cases = 0
     uses_reason = any(n.kind == 'col' and n.parts[-1].lower() == 'reason' for f in facts for n in _fact_nodes(f))
     done = set()
-    for wid, label, old, new in points:
+    for wid, label, old, new, certain in sorted(points, key=lambda p: not p[4]):      # established pairs first (stable: witness order kept)
         pk = (tuple(old[c] for c in af.TIME_COLS), tuple(new[c] for c in af.TIME_COLS)) + ((old['reason'], new['reason']) if uses_reason else ())
         if pk in done:
             continue
@@ -326,6 +330,10 @@ def _guard_verdict_update0(facts: Tuple[Fact, ...], points) -> tuple:
             ce = af.CondEval(leaf, basis, pivot=(da, dc) if split else None, pivot_sign=sg)
             for f in facts:
                 v = fact_status(f, ce)
+                if v in ('F', 'V') and not certain:
+                    if undecided is None:
+                        undecided = fact_text(f) + f' (it fails on a row change of {wid}, chain {label}, that exists only under an assumption about a value the call-chain analysis could not establish)'
+                    continue
                 if v in ('F', 'V'):
                     return ('bad', f, wid, label) + _witness_update(f, old, new, ranks, da, sg, v)
                 if v == 'U' and undecided is None:
@@ -411,203 +419,738 @@ def check_guards_insert(ctx: Ctx, r: sf.Routine, cons: str, st: N, facts: Tuple[
     ctx.ok('R6', cons, {'conditions': [fact_text(f) for f in facts], 'attempt_row_classes_with_billed_time': cases})
 
 
+# ----------------------------------------------------------------------------------------------------
+# name-free reading of the trigger statements: columns are resolved through the FROM clause's alias map, variables through their single
+# definition (SET: inlined; SELECT .. INTO: the table / column / key they were read with), equalities are unordered pairs
+# ----------------------------------------------------------------------------------------------------
+Ref = Tuple[str, str]          # ('new' | 'old', column) | (table, column) | ('var', name)
+_DATE_TODAY_UTC = {'UTC_DATE', 'UTC_TIMESTAMP'}
+_DATE_TODAY_OTHER = {'CURRENT_DATE', 'CURDATE', 'NOW', 'CURRENT_TIMESTAMP', 'SYSDATE', 'LOCALTIME', 'LOCALTIMESTAMP'}
+
+
+def _alias_map(frm: Optional[N]) -> Optional[Dict[str, str]]:
+    """alias (or bare name) -> table name, lower-cased; None when the FROM clause has something else than plain tables."""
+    out: Dict[str, str] = {}
+    for t in sf.from_tables(frm):
+        if t.kind != 'table':
+            return None
+        out[(t.alias or t.name).lower()] = t.name.lower()
+    return out
+
+
+def _resolve(n: N, alias: Dict[str, str], declared: set, prog: sf.SqlProgram) -> Optional[Ref]:
+    if n.kind != 'col':
+        return None
+    parts = [x.lower() for x in n.parts]
+    if len(parts) == 2:
+        if parts[0] in ('new', 'old'):
+            return (parts[0], parts[1])
+        return (alias[parts[0]], parts[1]) if parts[0] in alias else None
+    if len(parts) != 1:
+        return None
+    if parts[0] in declared:
+        return ('var', parts[0])
+    owners = sorted({t for t in alias.values() if parts[0] in [c.lower() for c in _table_columns(prog, t)]})
+    if len(owners) == 1:
+        return (owners[0], parts[0])
+    if not owners and len(set(alias.values())) == 1:
+        return (next(iter(alias.values())), parts[0])
+    return None
+
+
+def _table_columns(prog: sf.SqlProgram, table: str) -> List[str]:
+    for k, v in prog.tables.items():
+        if k.lower() == table:
+            return list(v)
+    return []
+
+
+def _eq_pairs(conds: Sequence[N], alias: Dict[str, str], declared: set, prog: sf.SqlProgram) -> Tuple[List[Tuple[Ref, Ref]], List[N]]:
+    """(resolved `a = b` conjuncts, conjuncts that are not an equality of two resolvable references)."""
+    pairs: List[Tuple[Ref, Ref]] = []
+    other: List[N] = []
+    for c in conds:
+        if c.kind == 'bin' and c.op == '=':
+            l, r_ = _resolve(c.left, alias, declared, prog), _resolve(c.right, alias, declared, prog)
+            if l is not None and r_ is not None:
+                pairs.append((l, r_))
+                continue
+        other.append(c)
+    return pairs, other
+
+
+def _partner(pairs: Sequence[Tuple[Ref, Ref]], ref: Ref) -> List[Ref]:
+    return [b for a, b in pairs if a == ref] + [a for a, b in pairs if b == ref]
+
+
+def _factors(e: N) -> List[N]:
+    if e.kind == 'bin' and e.op == '*':
+        return _factors(e.left) + _factors(e.right)
+    return [e]
+
+
+def _is_leafish(e: N) -> bool:
+    return e.kind in ('col', 'lit')
+
+
+class TriggerReader:
+    """Shared by R1 / R2 / R3 (and by C03 R2): what the billing trigger `r` adds to each aggregate table, read by role."""
+
+    def __init__(self, ctx: Ctx, prog: sf.SqlProgram, r: sf.Routine, kind: str):
+        self.ctx, self.prog, self.r, self.kind = ctx, prog, r, kind
+        a = r.ast
+        self.stmts = list(path_facts(r.name, a.body))
+        self.facts_of = {id(st): f for st, f in self.stmts}
+        self.pos_of = {id(st): i for i, (st, _) in enumerate(self.stmts)}
+        self.nenv = nested_env(r, self.stmts)
+        self.bound = _bound_vars(a)
+        self.declared = set(sr.declared_vars(a))
+        self.calls = [st for st, _ in self.stmts if st.kind in ('call', 'prepare', 'execute')]
+        # how often each variable is assigned (SET / SELECT INTO / FETCH): `bound` and `nenv` are only trusted for single definitions
+        self.counts: Dict[str, int] = {}
+        for st, _ in self.stmts:
+            targets: List[N] = []
+            if st.kind == 'set':
+                targets = [t for t, _ in st.assigns]
+            elif st.kind in ('select', 'fetch') and getattr(st, 'into', None):
+                targets = list(st.into)
+            for t in targets:
+                if sr.is_var(t):
+                    self.counts[t.parts[0].lower()] = self.counts.get(t.parts[0].lower(), 0) + 1
+        self.per_table: Dict[str, List[Tuple[N, tuple]]] = {}
+        for st, guard in self.stmts:
+            if st.kind == 'insert' and st.table.lower() in TABLES:
+                self.per_table.setdefault(st.table.lower(), []).append((st, guard))
+
+    # -- variables ---------------------------------------------------------------------------------------------------------------
+    def env_at(self, st: N, guard: tuple) -> Dict[str, N]:
+        return {k: e for k, (e, f2, p2) in self.nenv.items() if _is_prefix(f2, guard) and p2 < self.pos_of[id(st)]}
+
+    def need_defined(self, st: N, guard: tuple, what: str) -> None:
+        """Every variable the statement uses (directly or through an inlined definition) is assigned on every path that reaches it."""
+        r = self.r
+        used = {text(n).lower() for n in st.walk() if sr.is_var(n)} & self.declared
+        todo = [(v, self.pos_of[id(st)], guard) for v in sorted(used)]
+        seen = set()
+        while todo:
+            v, pos, g = todo.pop()
+            if (v, pos) in seen:
+                continue
+            seen.add((v, pos))
+            if v in self.nenv:
+                e, f2, p2 = self.nenv[v]
+                self.ctx.need(_is_prefix(f2, g) and p2 < pos, f'{r.name}: `{v}` is not assigned on every path that reaches {what}')
+                set_st = self.stmts[p2][0]
+                for t, val in set_st.assigns:
+                    if sr.is_var(t) and t.parts[0].lower() == v:
+                        for n in val.walk():
+                            if sr.is_var(n) and n.parts[0].lower() in self.declared:
+                                todo.append((n.parts[0].lower(), p2, f2))
+            elif v in self.bound:
+                self.ctx.need(self.counts.get(v, 0) == 1, f'{r.name}: `{v}` is assigned more than once; which value reaches {what} is not analysed')
+                sel0 = self.bound[v][2]
+                self.ctx.need(_is_prefix(self.facts_of[id(sel0)], g) and self.pos_of[id(sel0)] < pos, f'{r.name}: `{v}` is not read on every path that reaches {what}')
+            elif self.counts.get(v, 0) > 0:
+                raise AnalysisError(f'{r.name}: `{v}` (used by {what}) is assigned in a way the analysis does not follow')
+
+    def var_source(self, v: str) -> Optional[Tuple[str, str, Optional[Dict[str, Ref]], N]]:
+        """(table, column, {key column: what it is compared with} or None if the WHERE is not a plain conjunction of equalities, SELECT) for a
+        variable read by a single-table SELECT .. INTO."""
+        if v not in self.bound or self.counts.get(v, 0) != 1:
+            return None
+        tb, c, sel = self.bound[v]
+        alias = _alias_map(sel.frm) or {}
+        pairs, other = _eq_pairs(sf.conjuncts(sel.where), alias, self.declared, self.prog)
+        key: Optional[Dict[str, Ref]] = None
+        if not other:
+            key = {}
+            for a_, b_ in pairs:
+                for x, y in ((a_, b_), (b_, a_)):
+                    if x[0] == tb and y[0] != tb:
+                        key[x[1]] = y
+        return tb, c, key, sel
+
+    # -- one aggregate insert ----------------------------------------------------------------------------------------------------
+    def usage_factors(self, st: N, guard: tuple, alias: Dict[str, str]) -> Tuple:
+        """('ok', duration expression (variables inlined), quantity factor) | ('bad', why) | ('undecided', why) for the value inserted as usage."""
+        ins, _dup, _uv = sr.insert_colmap(st)
+        use = ins.get('usage')
+        if use is None:
+            return ('undecided', 'no usage column')
+        e = sr.inline_expr(use, self.env_at(st, guard))
+        fs = [f for f in _factors(e) if not (f.kind == 'lit' and f.value == 1)]
+        qty_ref = ('new', 'quantity') if self.kind == 'insert' else ('attempt_resources', 'quantity')
+        q = [f for f in fs if _resolve(f, alias, self.declared, self.prog) == qty_ref]
+        rest = [f for f in fs if not any(f is x for x in q)]
+        if len(q) == 1 and len(rest) == 1:
+            return ('ok', rest[0], q[0])
+        if all(_is_leafish(f) and (f.kind == 'lit' or _resolve(f, alias, self.declared, self.prog) is not None) for f in fs):
+            if not q:
+                return ('bad', f'`{text(use)}` is not multiplied by the quantity of the {"inserted" if self.kind == "insert" else "attempt_resources"} row')
+            return ('bad', f'`{text(use)}` is not (duration difference) x (quantity): factors {[text(f) for f in fs]}')
+        return ('undecided', f'usage value `{text(use)}` is not a product of a duration and a quantity the analysis can read')
+
+
+def _amount_terms(e: N) -> List[Tuple[int, N]]:
+    """additive terms with sign"""
+    if e.kind == 'bin' and e.op in ('+', '-'):
+        right = _amount_terms(e.right)
+        return _amount_terms(e.left) + [(sg if e.op == '+' else -sg, t) for sg, t in right]
+    if e.kind == 'un' and e.op == '-':
+        return [(-sg, t) for sg, t in _amount_terms(e.arg)]
+    return [(1, e)]
+
+
+def _norm_product(e: N) -> List[str]:
+    return sorted(text(f).lower() for f in _factors(e) if not (f.kind == 'lit' and f.value == 1))
+
+
 def check_trigger(ctx: Ctx, prog: sf.SqlProgram, r: sf.Routine, kind: str) -> None:
-    a = r.ast
-    stmts = list(path_facts(r.name, a.body))
-    facts_of = {id(st): f for st, f in stmts}
-    pos_of = {id(st): i for i, (st, _) in enumerate(stmts)}
-    nenv = nested_env(r, stmts)
-    bound = _bound_vars(a)
-    ctx.need('msec_diff_rollup' in nenv, f'{r.name}: msec_diff_rollup is not assigned by exactly one SET')
-    diff, diff_facts, diff_pos = nenv['msec_diff_rollup']
+    tr = TriggerReader(ctx, prog, r, kind)
     cons0 = f'{r.file}::{r.name}'
-    # R1
-    if kind == 'update':
-        want = f'({f_text("NEW.")} - {f_text("OLD.")})'
-        ctx.check(text(diff) == want, 'R1', cons0 + '::duration difference', f'the trigger bills `{text(diff)}`, expected f(NEW) - f(OLD) with f = GREATEST(COALESCE(rollup - start, 0), 0)',
-                  r.file, r.line)
-    else:
-        # f over variables read from the attempt row of NEW's key
-        vs = [c for c in sf.cols_in(diff)]
-        names = sorted({text(c).lower() for c in vs})
-        ok = len(names) == 2 and all(n in bound for n in names)
-        if ok:
-            rv = [n for n in names if bound[n][1] == 'rollup_time']
-            sv = [n for n in names if bound[n][1] == 'start_time']
-            ok = len(rv) == 1 and len(sv) == 1 and text(diff) == text(parse_expr(f'GREATEST(COALESCE({rv[0]} - {sv[0]}, 0), 0)'))
-            if ok:
-                st = bound[rv[0]][2]
-                ok = bound[rv[0]][0] == 'attempts' and bound[sv[0]][2] is st and sr.has_eq(st.where, 'batch_id', 'new.batch_id') and \
-                    sr.has_eq(st.where, 'job_id', 'new.job_id') and sr.has_eq(st.where, 'attempt_id', 'new.attempt_id')
-                if ok:
-                    ctx.need(_is_prefix(facts_of[id(st)], diff_facts) and pos_of[id(st)] < diff_pos, f'{r.name}: the attempt row is not read on every path before msec_diff_rollup is computed')
-        ctx.check(ok, 'R1', cons0 + '::duration of current attempt', f'the trigger bills `{text(diff)}`; expected f(start, rollup) read from the attempts row (NEW.batch_id, NEW.job_id, NEW.attempt_id)',
-                  r.file, r.line)
-    env = {k: e for k, (e, _, _) in nenv.items()}
-    # R2 / R3
-    per_table: Dict[str, List[Tuple[N, tuple]]] = {}
-    for st, guard in stmts:
-        if st.kind == 'insert' and st.table.lower() in TABLES:
-            per_table.setdefault(st.table.lower(), []).append((st, guard))
-        elif st.kind in ('update', 'delete') and any(t.lower() in TABLES for t, _ in sf.written_tables(st)):
+    declared = tr.declared
+    src_table = 'attempt_resources'
+    for st, _guard in tr.stmts:
+        if st.kind in ('update', 'delete') and any(t.lower() in TABLES for t, _ in sf.written_tables(st)):
             ctx.bad('R2', cons0 + f'::{st.kind} of aggregate', f'aggregate table modified by {st.kind} inside the trigger: {text(st)[:100]}', r.file, r.line_of(st))
+    durations: List[Tuple[N, N, Dict[str, str]]] = []       # (duration expression, statement, alias map)
     for tbl, keycols in TABLES.items():
         cons = f'{cons0}::{tbl}'
-        sts = per_table.get(tbl, [])
-        if len(sts) != 1:
-            ctx.bad('R2', cons, f'the trigger has {len(sts)} inserts into {tbl} (expected exactly one): ' + ('this aggregate is never updated by this path' if not sts else 'usage would be added more than once'),
-                    r.file, r.line)
+        sts = tr.per_table.get(tbl, [])
+        if not sts:
+            ctx.need(not tr.calls, f'{r.name}: no insert into {tbl} in the trigger body, but it calls other routines / dynamic SQL ({tr.calls[0].kind if tr.calls else ''}); not followed')
+            ctx.bad('R2', cons, f'the trigger has no insert into {tbl}: this aggregate is never updated by this path', r.file, r.line)
+            continue
+        if len(sts) > 1:
+            same_path = any(_is_prefix(g1, g2) or _is_prefix(g2, g1) for i, (_, g1) in enumerate(sts) for _, g2 in sts[i + 1:])
+            ctx.need(same_path, f'{r.name}: {len(sts)} inserts into {tbl} under different conditions; whether exactly one runs is not analysed')
+            ctx.bad('R2', cons, f'the trigger has {len(sts)} inserts into {tbl} on the same path: usage would be added more than once', r.file, r.line)
             continue
         st, guard = sts[0]
         ins, dup, uvars = sr.insert_colmap(st)
-        # every variable the statement uses is defined on every path that reaches it
-        used = {text(n).lower() for n in st.walk() if sr.is_var(n)}
-        for v in sorted(used & set(nenv)):
-            ctx.need(_is_prefix(nenv[v][1], guard) and nenv[v][2] < pos_of[id(st)], f'{r.name}: `{v}` is not assigned on every path that reaches the insert into {tbl}')
-        for v in sorted(used & set(bound)):
-            sel0 = bound[v][2]
-            ctx.need(_is_prefix(facts_of[id(sel0)], guard) and pos_of[id(sel0)] < pos_of[id(st)], f'{r.name}: `{v}` is not read on every path that reaches the insert into {tbl}')
+        sel = st.select
+        alias: Dict[str, str] = {}
+        if sel is not None:
+            am = _alias_map(sel.frm)
+            ctx.need(am is not None, f'{r.name}: the insert into {tbl} selects from a derived table; not analysed')
+            alias = am or {}
+        tr.need_defined(st, guard, f'the insert into {tbl}')
+        env = tr.env_at(st, guard)
         # R6: conditions enclosing the upsert, with single-assignment variables inlined
-        facts = tuple(_inline_fact(f, {k: e for k, (e, f2, p2) in nenv.items() if _is_prefix(f2, guard) and p2 < pos_of[id(st)]}) for f in guard)
+        facts = tuple(_inline_fact(f, env) for f in guard)
         if kind == 'update':
             check_guards_update(ctx, r, cons + '::guard', st, facts, attempt_row_changes(ctx, prog))
         else:
-            check_guards_insert(ctx, r, cons + '::guard', st, facts, bound)
-        use = ins.get('usage')
-        ctx.need(use is not None, f'{r.name}: insert into {tbl} has no usage column')
-        fac = _product_factors(use)
-        qty = 'new.quantity' if kind == 'insert' else None
-        ok_amt = len(fac) == 2 and 'msec_diff_rollup' in fac and (([x for x in fac if x != 'msec_diff_rollup'] or [''])[0] in (('new.quantity',) if kind == 'insert' else ('quantity', 'attempt_resources.quantity')))
-        ctx.check(ok_amt, 'R2', cons + '::amount', f'usage inserted is `{text(use)}`, expected msec_diff_rollup x quantity of the {"inserted" if kind == "insert" else "attempt_resources"} row', r.file, r.line_of(st))
+            check_guards_insert(ctx, r, cons + '::guard', st, facts, tr.bound)
+
+        def res(e: Optional[N]) -> Optional[Ref]:
+            return _resolve(sr.inline_expr(e, env), alias, declared, prog) if e is not None else None
+
+        def shown(e: Optional[N]) -> str:
+            return '<missing>' if e is None else text(e)
+        # ---- R2 amount -----------------------------------------------------------------------------------------------------
+        ctx.need(ins.get('usage') is not None, f'{r.name}: insert into {tbl} has no usage column')
+        uf = tr.usage_factors(st, guard, alias)
+        if uf[0] == 'undecided':
+            raise AnalysisError(f'{r.name}: insert into {tbl}: {uf[1]}')
+        ctx.check(uf[0] == 'ok', 'R2', cons + '::amount', f'usage inserted: {uf[1] if uf[0] == "bad" else ""}; expected (billed-duration difference) x quantity of the {"inserted" if kind == "insert" else "attempt_resources"} row',
+                  r.file, r.line_of(st))
+        if uf[0] == 'ok':
+            durations.append((uf[1], st, alias))
+        # ---- R2 on duplicate -----------------------------------------------------------------------------------------------
         d = dup.get('usage')
-        inc = sr.dup_increment('usage', d, uvars) if d is not None else None
-        ctx.check(inc is not None and inc[0] == 1 and _product_factors(inc[1]) == fac and list(dup) == ['usage'], 'R2', cons + '::on-duplicate',
-                  f'ON DUPLICATE KEY UPDATE `{text(d)}` does not add the same amount as a fresh row would hold', r.file, r.line_of(st))
-        rid = text(ins.get('resource_id', N('lit', value=None))).lower()
-        ctx.check(rid in ('new.deduped_resource_id', 'attempt_resources.deduped_resource_id', 'deduped_resource_id'), 'R2', cons + '::resource key',
-                  f'resource_id column receives `{rid}`, expected the deduped_resource_id of the resource row', r.file, r.line_of(st))
-        # entity keys
-        def origin(col: str) -> str:
+        other_dups = [c for c, v in dup.items() if c != 'usage' and not _is_self_assign(c, v)]
+        ctx.need(not other_dups, f'{r.name}: ON DUPLICATE KEY UPDATE of {tbl} also assigns {other_dups}; not analysed')
+        if d is None:
+            ctx.need(not st.ignore, f'{r.name}: INSERT IGNORE into {tbl}; not analysed')
+            ctx.bad('R2', cons + '::on-duplicate', 'the insert has no ON DUPLICATE KEY UPDATE of usage: a second increment for the same key fails or is dropped instead of being added', r.file, r.line_of(st))
+        else:
+            use_raw, use_inl = _norm_product(ins['usage']), _norm_product(sr.inline_expr(ins['usage'], env))
+            terms = _amount_terms(d)
+
+            def is_usage_col(t: N) -> bool:
+                return t.kind == 'col' and t.parts[-1].lower() == 'usage' and (len(t.parts) == 1 or t.parts[-2].lower() == tbl)
+
+            def is_values_usage(t: N) -> bool:
+                return t.kind == 'func' and t.name == 'VALUES' and len(t.args) == 1 and t.args[0].kind == 'col' and t.args[0].parts[-1].lower() == 'usage'
+
+            def same_amount(t: N) -> bool:
+                return is_values_usage(t) or _norm_product(t) == use_raw or _norm_product(sr.inline_expr(t, env)) == use_inl
+            keeps = [sg for sg, t in terms if is_usage_col(t)]
+            adds = [(sg, t) for sg, t in terms if not is_usage_col(t)]
+            ok_dup = keeps == [1] and len(adds) == 1 and adds[0][0] == 1 and same_amount(adds[0][1])
+            if not ok_dup:
+                # a violation needs a shape that is fully read: the kept usage and products of plain columns / variables / literals
+                readable = all(is_usage_col(t) or is_values_usage(t) or all(_is_leafish(f) for f in _factors(t)) for _, t in terms)
+                ctx.need(readable, f'{r.name}: ON DUPLICATE KEY UPDATE usage = `{text(d)}` of {tbl} is not a sum of products the analysis can read')
+            ctx.check(ok_dup, 'R2', cons + '::on-duplicate', f'ON DUPLICATE KEY UPDATE `{text(d)}` does not add the same amount as a fresh row would hold (`{text(ins["usage"])}`)', r.file, r.line_of(st))
+        # ---- R2 resource key -----------------------------------------------------------------------------------------------
+        rid = res(ins.get('resource_id'))
+        want_rid = ('new', 'deduped_resource_id') if kind == 'insert' else (src_table, 'deduped_resource_id')
+        ctx.need(rid is not None and rid[0] != 'var', f'{r.name}: resource_id of {tbl} receives `{shown(ins.get("resource_id"))}`, not a column of the resource row the analysis can resolve')
+        ctx.check(rid == want_rid, 'R2', cons + '::resource key', f'resource_id column receives `{shown(ins.get("resource_id"))}`, expected the deduped_resource_id of the resource row', r.file, r.line_of(st))
+        # rows the statement reads: WHERE + inner-join equalities hold for every row it inserts
+        where_pairs: List[Tuple[Ref, Ref]] = []
+        where_other: List[N] = []
+        if sel is not None:
+            where_pairs, where_other = _eq_pairs(sf.conjuncts(sel.where), alias, declared, prog)
+
+        def same_as_attempt(ref: Optional[Ref], col: str) -> Optional[bool]:
+            """Is `ref` the attempt's own `col` (batch_id / job_id)?  None: not decided."""
+            if ref is None:
+                return None
+            good = {('new', col), (src_table, col)} if kind == 'update' else {('new', col)}
+            if ref in good:
+                return True
+            if any(p in good for p in _partner(where_pairs, ref)):
+                return True         # equated with it by the WHERE clause
+            if ref[0] == 'var':
+                vs = tr.var_source(ref[1])
+                if vs is None:
+                    return None
+                return False if vs[0] != 'var' else None
+            return False
+
+        def owner_origin(col: str) -> Tuple[Optional[bool], str]:
+            """batches.<col> of the batch NEW.batch_id?"""
             e = ins.get(col)
+            ref = res(e)
             if e is None:
-                return '<missing>'
-            t = text(e).lower()
-            if sr.is_var(e) and t in bound:
-                tb, c, sel = bound[t]
-                key = 'new.batch_id' if sr.has_eq(sel.where, 'id', 'new.batch_id') or sr.has_eq(sel.where, 'batch_id', 'new.batch_id') else '?'
-                return f'{tb}.{c}@{key}'
-            return t
+                return False, '<missing>'
+            e1 = sr.inline_expr(e, env)
+            if e1.kind == 'lit':
+                return False, text(e1)
+            if ref is None or ref[0] != 'var':
+                return (None if ref is None or ref[0] == 'batches' else False), text(e1)
+            vs = tr.var_source(ref[1])
+            if vs is None:
+                return None, text(e1)
+            tb, c, key, _sel = vs
+            if tb != 'batches' or c != col:
+                return False, f'{tb}.{c}'
+            if key is None:
+                return None, f'{tb}.{c} (WHERE not a conjunction of equalities)'
+            if set(key) == {'id'} and key['id'] == ('new', 'batch_id'):
+                return True, f'{tb}.{c}@new.batch_id'
+            return False, f'{tb}.{c}@{key}'
         if 'billing_project' in keycols:
-            ctx.check(origin('billing_project') == 'batches.billing_project@new.batch_id' and origin('user') == 'batches.user@new.batch_id', 'R2', cons + '::owner keys',
-                      f'billing_project/user columns receive {origin("billing_project")} / {origin("user")}; expected the billing project and user of batch NEW.batch_id', r.file, r.line_of(st))
+            (o1, t1), (o2, t2) = owner_origin('billing_project'), owner_origin('user')
+            ctx.need(o1 is not None and o2 is not None, f'{r.name}: billing_project / user of {tbl} receive {t1} / {t2}; their origin is not resolved')
+            ctx.check(bool(o1 and o2), 'R2', cons + '::owner keys', f'billing_project/user columns receive {t1} / {t2}; expected the billing project and user of batch NEW.batch_id', r.file, r.line_of(st))
         if 'job_id' in keycols:
-            ctx.check(origin('batch_id') in ('new.batch_id', 'attempt_resources.batch_id') and origin('job_id') in ('new.job_id', 'attempt_resources.job_id'), 'R2', cons + '::job keys',
-                      f'batch_id/job_id columns receive {origin("batch_id")} / {origin("job_id")}', r.file, r.line_of(st))
+            b_ok, j_ok = same_as_attempt(res(ins.get('batch_id')), 'batch_id'), same_as_attempt(res(ins.get('job_id')), 'job_id')
+            ctx.need(b_ok is not None and j_ok is not None, f'{r.name}: batch_id / job_id of {tbl} receive `{shown(ins.get("batch_id"))}` / `{shown(ins.get("job_id"))}`; not resolved')
+            ctx.check(bool(b_ok and j_ok), 'R2', cons + '::job keys', f'batch_id/job_id columns receive {shown(ins.get("batch_id"))} / {shown(ins.get("job_id"))}; expected those of the attempt', r.file, r.line_of(st))
         if 'job_group_id' in keycols:
-            sel = st.select
-            okf = sel is not None and 'job_group_self_and_ancestors' in [t.lower() for t in sf.table_names(sel.frm)] and origin('job_group_id').split('.')[-1] == 'ancestor_id'
-            if okf and kind == 'insert':
-                jg = [c for c in sf.conjuncts(sel.where) if c.kind == 'bin' and c.op == '=' and text(c.left).lower().endswith('job_group_id')]
-                v = text(jg[0].right).lower() if jg else ''
-                okf = bool(jg) and v in bound and bound[v][:2] == ('jobs', 'job_group_id') and sr.has_eq(bound[v][2].where, 'job_id', 'new.job_id') and \
-                    sr.has_eq(bound[v][2].where, 'batch_id', 'new.batch_id') and sr.has_eq(sel.where, 'batch_id', 'new.batch_id')
-            elif okf:
-                on = [text(c).lower() for j in sel.frm.joins for c in sf.conjuncts(j.on)]
-                okf = '(jobs.job_group_id = job_group_self_and_ancestors.job_group_id)' in on and '(jobs.batch_id = job_group_self_and_ancestors.batch_id)' in on and \
-                    '(attempt_resources.job_id = jobs.job_id)' in on and '(attempt_resources.batch_id = jobs.batch_id)' in on
-            ctx.check(okf, 'R2', cons + '::ancestor fan-out', 'usage is not added for the job\'s own group and every ancestor group (join job_group_self_and_ancestors on the job\'s batch_id / job_group_id, insert ancestor_id)',
-                      r.file, r.line_of(st))
+            verdict = _fanout_verdict(tr, st, ins, alias, where_pairs, env, same_as_attempt)
+            if verdict[0] == 'undecided':
+                raise AnalysisError(f'{r.name}: insert into {tbl}: {verdict[1]}')
+            ctx.check(verdict[0] == 'ok', 'R2', cons + '::ancestor fan-out', 'usage is not added for the job\'s own group and every ancestor group (join job_group_self_and_ancestors on the job\'s batch_id / job_group_id, insert ancestor_id)'
+                      + (f': {verdict[1]}' if verdict[0] == 'bad' else ''), r.file, r.line_of(st))
         if 'billing_date' in keycols:
             bd = ins.get('billing_date')
-            ctx.check(bd is not None and 'utc_date' in text(sr.inline_expr(bd, env)).lower(), 'R2', cons + '::billing date', f'billing_date column receives `{text(bd)}`', r.file, r.line_of(st))
-        # R3: source rows
+            bde = sr.inline_expr(bd, env) if bd is not None else None
+            fnames = {n.name.upper() for n in bde.walk() if n.kind == 'func'} if bde is not None else set()
+            leaf_only = bde is None or bde.kind in ('lit',) or (bde.kind == 'col' and res(bd) is not None and res(bd)[0] != 'var')
+            ctx.need(bool(fnames & _DATE_TODAY_UTC) or leaf_only, f'{r.name}: billing_date of {tbl} receives `{shown(bd)}`; whether that is the current billing day is not analysed')
+            ctx.check(bool(fnames & _DATE_TODAY_UTC), 'R2', cons + '::billing date', f'billing_date column receives `{shown(bd)}`, not the current (UTC) day', r.file, r.line_of(st))
+        # ---- R3: source rows -----------------------------------------------------------------------------------------------
         if kind == 'update':
-            sel = st.select
-            ok3 = sel is not None and sf.table_names(sel.frm)[0].lower() == 'attempt_resources' and sr.has_eq(sel.where, 'batch_id', 'new.batch_id') and \
-                sr.has_eq(sel.where, 'job_id', 'new.job_id') and sr.has_eq(sel.where, 'attempt_id', 'new.attempt_id') and len(sf.conjuncts(sel.where)) == 3 and \
-                all(j.jtype == 'LEFT' or tbl == 'x' for j in sel.frm.joins)
-            ctx.check(ok3, 'R3', cons + '::rows billed', f'the rows billed are not exactly the attempt_resources of (NEW.batch_id, NEW.job_id, NEW.attempt_id): FROM {text(sel.frm) if sel else None} WHERE {text(sel.where) if sel else None}',
+            ctx.need(sel is not None or all(_is_leafish(x) for x in ins.values()), f'{r.name}: insert into {tbl} has no SELECT; not analysed')
+            if sel is None:
+                ctx.bad('R3', cons + '::rows billed', 'the update trigger inserts a single VALUES row: it does not bill every attempt_resources row of the attempt', r.file, r.line_of(st))
+                continue
+            first = sel.frm.first
+            ctx.need(first.kind == 'table', f'{r.name}: insert into {tbl} selects from a derived table')
+            key_of: Dict[str, List[Ref]] = {}
+            for a_, b_ in where_pairs:
+                for x, y in ((a_, b_), (b_, a_)):
+                    if x[0] == src_table and y[0] != src_table:
+                        key_of.setdefault(x[1], []).append(y)
+            ctx.need(not where_other, f'{r.name}: insert into {tbl}: WHERE conjunct `{text(where_other[0]) if where_other else ""}` is not an equality the analysis can read; whether it drops billed rows is not decided')
+            non_left = [j for j in sel.frm.joins if j.jtype != 'LEFT']
+            ctx.need(not non_left, f'{r.name}: insert into {tbl}: a {non_left[0].jtype if non_left else ""} JOIN may drop attempt_resources rows; not analysed')
+            ok3 = first.name.lower() == src_table and all(key_of.get(c) == [('new', c)] for c in ('batch_id', 'job_id', 'attempt_id')) and \
+                set(key_of) == {'batch_id', 'job_id', 'attempt_id'} and sum(len(v) for v in key_of.values()) == len(where_pairs)
+            ctx.check(ok3, 'R3', cons + '::rows billed', f'the rows billed are not exactly the attempt_resources of (NEW.batch_id, NEW.job_id, NEW.attempt_id): FROM {text(sel.frm)} WHERE {text(sel.where) if sel.where is not None else None}',
                       r.file, r.line_of(st))
         else:
-            ctx.check(st.select is None or tbl == 'aggregated_job_group_resources_v3', 'R3', cons + '::single row', 'the insert trigger bills more than the inserted resource row', r.file, r.line_of(st))
+            ctx.check(sel is None or tbl == 'aggregated_job_group_resources_v3', 'R3', cons + '::single row', 'the insert trigger bills more than the inserted resource row', r.file, r.line_of(st))
+    # ---- R1: the billed duration, compared as a value ----------------------------------------------------------------------------
+    check_duration(ctx, tr, cons0, durations)
+
+
+def _fanout_verdict(tr: TriggerReader, st: N, ins: Dict[str, N], alias: Dict[str, str], where_pairs, env: Dict[str, N], same_as_attempt) -> Tuple:
+    """job_group_id := ancestor_id of every row of job_group_self_and_ancestors with (batch_id, job_group_id) = the job's own."""
+    prog, declared, kind = tr.prog, tr.declared, tr.kind
+    CL = 'job_group_self_and_ancestors'
+    sel = st.select
+    e = ins.get('job_group_id')
+    if e is None:
+        return ('bad', 'no job_group_id column')
+    ref = _resolve(sr.inline_expr(e, env), alias, declared, prog)
+    if sel is None or CL not in alias.values():
+        if ref is not None and (ref in (('jobs', 'job_group_id'), ('new', 'job_group_id')) or (ref[0] == 'var' and (tr.var_source(ref[1]) or ('', ''))[:2] == ('jobs', 'job_group_id'))):
+            return ('bad', f'job_group_id receives `{text(e)}`: only the job\'s own group')
+        return ('undecided', f'job_group_id receives `{text(e)}` and {CL} is not read by the statement')
+    if [t for t in alias.values()].count(CL) != 1:
+        return ('undecided', f'{CL} is joined more than once')
+    if ref is None:
+        return ('undecided', f'job_group_id receives `{text(e)}`, not resolved')
+    if ref != (CL, 'ancestor_id'):
+        return ('bad', f'job_group_id receives `{text(e)}`') if ref[0] in (CL, 'jobs', 'new') else ('undecided', f'job_group_id receives `{text(e)}`')
+    # every condition on the closure table / on jobs: WHERE and all ON clauses
+    conds = sf.conjuncts(sel.where) + [c for j in sel.frm.joins for c in sf.conjuncts(j.on)]
+    pairs, other = _eq_pairs(conds, alias, declared, prog)
+    for c in other:
+        refs = [_resolve(n, alias, declared, prog) for n in c.walk() if n.kind == 'col']
+        if any(x is None or x[0] in (CL, 'jobs') for x in refs):
+            return ('undecided', f'condition `{text(c)}` on the closure / jobs rows is not an equality the analysis can read')
+
+    def job_batch(x: Ref) -> Optional[bool]:
+        if x == ('jobs', 'batch_id'):
+            return jobs_ok
+        return same_as_attempt(x, 'batch_id')
+
+    def job_id_ok(x: Ref) -> Optional[bool]:
+        return same_as_attempt(x, 'job_id')
+    jobs_ok: Optional[bool] = None
+    if 'jobs' in alias.values():
+        jb = _partner(pairs, ('jobs', 'batch_id'))
+        jj = _partner(pairs, ('jobs', 'job_id'))
+        jb = [x for x in jb if x[0] != CL]
+        if not jb or not jj:
+            jobs_ok = False
+        else:
+            vals = [same_as_attempt(x, 'batch_id') for x in jb] + [job_id_ok(x) for x in jj]
+            jobs_ok = None if any(v is None for v in vals) else all(vals)
+        extra = [p for p in pairs if any(x[0] == 'jobs' and x[1] not in ('batch_id', 'job_id', 'job_group_id') for x in p)]
+        if extra:
+            return ('undecided', f'the jobs row is restricted by {extra[0]}')
+    cb = _partner(pairs, (CL, 'batch_id'))
+    cg = _partner(pairs, (CL, 'job_group_id'))
+    extra = [p for p in pairs if any(x[0] == CL and x[1] not in ('batch_id', 'job_group_id') for x in p)]
+    if extra:
+        return ('bad', f'the closure rows are restricted by {extra[0][0][1]} = {extra[0][1][1]} / {extra[0]}: not every ancestor receives the usage')
+    if not cb or not cg:
+        return ('bad', 'the closure rows are not restricted to (batch_id, job_group_id) of the job\'s group' if not other else 'closure join not readable') if not other else ('undecided', 'closure join not readable')
+    bvals = [job_batch(x) for x in cb]
+
+    def group_ok(x: Ref) -> Optional[bool]:
+        if x == ('jobs', 'job_group_id'):
+            return jobs_ok
+        if x[0] == 'var':
+            vs = tr.var_source(x[1])
+            if vs is None:
+                return None
+            tb, c, key, _sel = vs
+            if (tb, c) != ('jobs', 'job_group_id'):
+                return False
+            if key is None:
+                return None
+            return set(key) == {'batch_id', 'job_id'} and key['batch_id'] == ('new', 'batch_id') and key['job_id'] == ('new', 'job_id')
+        if x == ('new', 'job_group_id'):
+            return None
+        return False
+    gvals = [group_ok(x) for x in cg]
+    vals = bvals + gvals
+    if any(v is False for v in vals):
+        return ('bad', f'closure rows selected by batch_id = {cb}, job_group_id = {cg}')
+    if any(v is None for v in vals):
+        return ('undecided', f'closure rows selected by batch_id = {cb}, job_group_id = {cg}: origin not resolved')
+    return ('ok',)
+
+
+def collect_durations(tr: TriggerReader) -> List[Tuple[N, N, Dict[str, str]]]:
+    """(duration factor, statement, alias map) of every aggregate insert of the trigger whose usage is readable as duration x quantity."""
+    out: List[Tuple[N, N, Dict[str, str]]] = []
+    for tbl in TABLES:
+        for st, guard in tr.per_table.get(tbl, []):
+            alias = (_alias_map(st.select.frm) or {}) if st.select is not None else {}
+            uf = tr.usage_factors(st, guard, alias)
+            if uf[0] == 'ok':
+                out.append((uf[1], st, alias))
+    return out
+
+
+def duration_verdict(tr: TriggerReader, durations: List[Tuple[N, N, Dict[str, str]]]) -> Tuple:
+    """Does the factor the usage is multiplied with denote f(NEW) - f(OLD) (update trigger) / f(current attempt row) (insert trigger),
+    f = max(rollup - start, 0) and 0 when either is NULL?  Compared as a value over the order domain, not as text.
+    ('ok', detail) | ('bad', message, statement) | ('undecided', message)."""
+    r, kind = tr.r, tr.kind
+    if not durations:
+        return ('undecided', f'{r.name}: no aggregate insert whose usage could be read; the billed duration is not found')
+    distinct: Dict[str, Tuple[N, N]] = {}
+    for e, st, _alias in durations:
+        distinct.setdefault(text(e), (e, st))
+    verdicts = []
+    expected = 'f(NEW) - f(OLD)' if kind == 'update' else 'f(current attempt row)'
+    for t, (e, st) in distinct.items():
+        if kind == 'update':
+            def sym_of(n: N) -> Optional[str]:
+                if n.kind == 'col' and len(n.parts) == 2 and n.parts[0].upper() in ('OLD', 'NEW') and n.parts[1].lower() in af.TIME_COLS:
+                    return f'{n.parts[0].lower()}.{n.parts[1].lower()}'
+                return None
+            syms = ['new.start_time', 'new.rollup_time', 'old.start_time', 'old.rollup_time']
+
+            def want(row: Dict[str, Optional[int]]) -> af.Lin:
+                return af._lin_add(af.billed_lin(row['new.start_time'], row['new.rollup_time']), af.billed_lin(row['old.start_time'], row['old.rollup_time']), -1)
+        else:
+            sources: Dict[str, str] = {}
+            for n in e.walk():
+                if sr.is_var(n) and n.parts[0].lower() in tr.declared:
+                    v = n.parts[0].lower()
+                    vs = tr.var_source(v)
+                    if vs is None:
+                        return ('undecided', f'{r.name}: the billed duration reads `{v}`, which is not read from a table by a single SELECT .. INTO')
+                    tb, c, k, sel0 = vs
+                    if tb != 'attempts' or c not in af.TIME_COLS:
+                        return ('bad', f'the trigger bills `{t}`, which reads {tb}.{c}; expected f(start, rollup) of the attempts row (NEW.batch_id, NEW.job_id, NEW.attempt_id)', st)
+                    if k is None:
+                        return ('undecided', f'{r.name}: the attempts row is read with a WHERE clause that is not a conjunction of equalities')
+                    if not (set(k) == {'batch_id', 'job_id', 'attempt_id'} and all(k[c2] == ('new', c2) for c2 in k)):
+                        return ('bad', f'the trigger bills `{t}` with `{v}` read from the attempts row selected by {k}; expected the row (NEW.batch_id, NEW.job_id, NEW.attempt_id): '
+                                'the duration of another attempt of the job is billed', sel0)
+                    sources[v] = c
+
+            def sym_of(n: N) -> Optional[str]:       # noqa: F811
+                return sources.get(n.parts[0].lower()) if sr.is_var(n) else None
+            syms = ['start_time', 'rollup_time']
+
+            def want(row: Dict[str, Optional[int]]) -> af.Lin:       # noqa: F811
+                return af.billed_lin(row['start_time'], row['rollup_time'])
+        extra = sorted({sym_of(n) for n in e.walk() if n.kind == 'col' and sym_of(n) is not None} - set(syms))
+        verdicts.append((t, st, af.compare_value_expr(e, sym_of, syms + extra, want)))
+    for t, st, v in verdicts:
+        if v[0] == 'bad':
+            _, row, got, need = v
+            return ('bad', f'the trigger bills `{t}`; expected {expected} with f = GREATEST(COALESCE(rollup - start, 0), 0). E.g. for times {af.realise(row)} it yields {got} instead of {need}', st,
+                    {'class': af.realise(row), 'got': got, 'want': need})
+    for t, st, v in verdicts:
+        if v[0] == 'undecided':
+            return ('undecided', f'{r.name}: billed duration `{t}`: {v[1]}')
+    return ('ok', {'expression': list(distinct), 'ordering_classes': sum(v[1] for _, _, v in verdicts)})
+
+
+def check_duration(ctx: Ctx, tr: TriggerReader, cons0: str, durations: List[Tuple[N, N, Dict[str, str]]]) -> None:
+    """R1 (see duration_verdict)."""
+    r = tr.r
+    key = cons0 + ('::duration difference' if tr.kind == 'update' else '::duration of current attempt')
+    v = duration_verdict(tr, durations)
+    if v[0] == 'undecided':
+        raise AnalysisError(v[1])
+    if v[0] == 'bad':
+        ctx.bad('R1', key, v[1], r.file, r.line_of(v[2]), extra=v[3] if len(v) > 3 else None)
+    else:
+        ctx.ok('R1', key, v[1])
 
 
 def r4(ctx: Ctx) -> None:
     m = pf.load('batch/batch/driver/job.py')
-    embs = [e for e in sf.embedded_in(m) if e.sql_text and 'attempt_resources' in e.sql_text and e.qual.startswith('add_attempt_resources')]
-    ctx.need(len(embs) == 1, 'add_attempt_resources insert not found')
-    e = embs[0]
-    st = e.stmts()[0]
-    ok = st.kind == 'insert' and len(st.on_dup) == 1 and text(st.on_dup[0][0]).lower() == text(st.on_dup[0][1]).lower() == 'quantity' and not st.ignore
-    ctx.check(ok, 'R4', f'{m.rel}::add_attempt_resources::on duplicate', f'a re-sent resource report executes `{text(st)[-80:]}`; it must leave an existing (attempt, resource) row unchanged '
+    KEY = ('batch_id', 'job_id', 'attempt_id')
+    found: List[Tuple[sf.Embedded, N]] = []
+    for e in sf.embedded_in(m):
+        if not e.qual.startswith('add_attempt_resources'):
+            continue
+        if e.sql_text is not None and 'attempt_resources' not in e.sql_text:
+            continue
+        for st in _emb_stmts(m, e):
+            if st.kind in ('insert', 'update', 'delete') and any(t.lower() == 'attempt_resources' for t, _ in sf.written_tables(st)):
+                found.append((e, st))
+    ctx.need(len(found) == 1 and found[0][1].kind == 'insert', 'add_attempt_resources: the single insert into attempt_resources is not found')
+    e, st = found[0]
+    cons = f'{m.rel}::add_attempt_resources'
+    # idempotence of a re-sent report: every ON DUPLICATE KEY assignment leaves the stored row as it is
+    ctx.need(not st.ignore, 'add_attempt_resources: INSERT IGNORE (duplicates are dropped together with every other error); not analysed')
+    changed = []
+    for c, v in st.on_dup:
+        ctx.need(c.kind == 'col', 'add_attempt_resources: ON DUPLICATE KEY UPDATE target is not a column')
+        if _is_self_assign(c.parts[-1].lower(), v):
+            continue
+        leafy = v.kind in ('col', 'lit', 'param') or (v.kind == 'func' and v.name == 'VALUES') or \
+            (v.kind == 'bin' and v.op in ('+', '-', '*') and all(x.kind in ('col', 'lit', 'param') or (x.kind == 'func' and x.name == 'VALUES') for x in (v.left, v.right)))
+        ctx.need(leafy, f'add_attempt_resources: ON DUPLICATE KEY UPDATE {text(c)} = `{text(v)}` is not analysed')
+        changed.append(f'{text(c)} = {text(v)}')
+    ok = bool(st.on_dup) and not changed and not getattr(st, 'replace', False)
+    ctx.check(ok, 'R4', cons + '::on duplicate', f'a re-sent resource report executes `{text(st)[-80:]}`' + (f' (changes {changed})' if changed else '') + '; it must leave an existing (attempt, resource) row unchanged '
               '(ON DUPLICATE KEY UPDATE quantity = quantity), otherwise usage already billed with the old quantity no longer matches', m.path, e.lineno)
     cols = [c.lower() for c in st.cols or []]
-    ctx.check(cols == ['batch_id', 'job_id', 'attempt_id', 'resource_id', 'deduped_resource_id', 'quantity'], 'R4', f'{m.rel}::add_attempt_resources::columns', f'columns {cols}', m.path, e.lineno)
+    needed = ['batch_id', 'job_id', 'attempt_id', 'resource_id', 'deduped_resource_id', 'quantity']
+    ctx.need(sorted(cols) == sorted(needed), f'add_attempt_resources: the insert names the columns {cols}; expected {needed} in some order')
+    ctx.ok('R4', cons + '::columns', {'columns': cols})
     # the values bound to those columns: the attempt's own key, and both ids of ONE resource record (the triggers key every aggregate on deduped_resource_id)
-    elts = sr.args_tuple(e.fn, e.call.args[1] if len(e.call.args) > 1 else None)
+    arg = _call_args_node(e)
+    elts = sr.args_tuple(e.fn, arg) or _py_args(e.fn, arg)
     ctx.need(elts is not None and len(elts) == len(cols) and len(st.rows) == 1 and all(x.kind == 'param' for x in st.rows[0]), 'add_attempt_resources: the values of the insert are not a tuple per row that can be bound to the columns')
-    vals = dict(zip(cols, elts))
-    if all(c in vals for c in ('batch_id', 'job_id', 'attempt_id', 'resource_id', 'deduped_resource_id')):
-        keys = {c: pf.nsrc(pf.resolve_expr(e.fn, vals[c])) for c in ('batch_id', 'job_id', 'attempt_id')}
-        ctx.check(all(keys[c] == c for c in keys), 'R4', f'{m.rel}::add_attempt_resources::attempt key', f'the attempt key columns receive {keys}; expected the (batch_id, job_id, attempt_id) the resources were reported for',
-                  m.path, e.lineno)
-        rid, did = vals['resource_id'], vals['deduped_resource_id']
-        ctx.need(isinstance(rid, ast.Attribute) and isinstance(did, ast.Attribute), f'add_attempt_resources: resource ids are `{pf.nsrc(rid)}` / `{pf.nsrc(did)}`, not attributes of a resource record')
-        ctx.check(rid.attr == 'resource_id' and did.attr == 'deduped_resource_id' and pf.nsrc(rid.value) == pf.nsrc(did.value), 'R4', f'{m.rel}::add_attempt_resources::resource ids',
-                  f'resource_id / deduped_resource_id receive `{pf.nsrc(rid)}` / `{pf.nsrc(did)}`; expected .resource_id and .deduped_resource_id of the same resource record: the triggers add the usage under '
-                  'deduped_resource_id, a recomputation joins resources on resource_id', m.path, e.lineno)
+    params = sr.params_in_order(st)
+    row = st.rows[0]
+    vals = {c: elts[[id(p) for p in params].index(id(v))] for c, v in zip(cols, row)}      # type: ignore[index]
+    fn = e.fn
+    ctx.need(fn is not None, 'add_attempt_resources: insert outside a function')
+    pnames = _param_names_of(fn)
+    keys: Dict[str, str] = {}
+    for c in KEY:
+        x = pf.resolve_expr(fn, vals[c])
+        ctx.need(isinstance(x, ast.Name) and x.id in pnames and len(pf.assignments(fn).get(x.id, [])) == 1, f'add_attempt_resources: {c} receives `{pf.nsrc(vals[c])}`, which is not a parameter of the function; not resolved')
+        keys[c] = x.id      # type: ignore[union-attr]
+    crossed = {c: k for c, k in keys.items() if k != c and k in KEY}
+    ctx.need(crossed or all(keys[c] == c for c in KEY), f'add_attempt_resources: the attempt key columns receive the parameters {keys}; which of them is which is not decided')
+    ctx.check(not crossed, 'R4', cons + '::attempt key', f'the attempt key columns receive {keys}; expected the (batch_id, job_id, attempt_id) the resources were reported for', m.path, e.lineno)
+    rid, did = vals['resource_id'], vals['deduped_resource_id']
+    ctx.need(isinstance(rid, ast.Attribute) and isinstance(did, ast.Attribute), f'add_attempt_resources: resource ids are `{pf.nsrc(rid)}` / `{pf.nsrc(did)}`, not attributes of a resource record')
+    attrs_ok = rid.attr == 'resource_id' and did.attr == 'deduped_resource_id'
+    same_rec = pf.nsrc(pf.expand_locals(fn, rid.value)) == pf.nsrc(pf.expand_locals(fn, did.value))
+    ctx.need(not attrs_ok or same_rec, f'add_attempt_resources: `{pf.nsrc(rid)}` and `{pf.nsrc(did)}` are read from records the analysis cannot show to be the same')
+    ctx.check(attrs_ok, 'R4', cons + '::resource ids',
+              f'resource_id / deduped_resource_id receive `{pf.nsrc(rid)}` / `{pf.nsrc(did)}`; expected .resource_id and .deduped_resource_id of the same resource record: the triggers add the usage under '
+              'deduped_resource_id, a recomputation joins resources on resource_id', m.path, e.lineno)
+
+
+# ----------------------------------------------------------------------------------------------------
+# Python side: what is bound to the %s of an embedded statement, resolved through locals (names are not semantics)
+# ----------------------------------------------------------------------------------------------------
+def _emb_stmts(m: pf.Module, e: sf.Embedded) -> List[N]:
+    """Parsed statements of an execute-style call; SQL kept in a module-level constant is followed.  Declines on opaque / unparsable SQL."""
+    if e.sql_text is not None:
+        sts = e.stmts()
+        if e.parse_error:
+            raise AnalysisError(f'{m.rel}:{e.lineno}: embedded SQL does not parse ({e.parse_error})')
+        return sts
+    a0 = e.call.args[0]
+    g = None
+    if isinstance(a0, ast.Name):
+        try:
+            g = pf.const_str(m.global_assign(a0.id))
+        except Exception:
+            g = None
+    if g is None:
+        raise AnalysisError(f'{m.rel}:{e.lineno}: the SQL text of `{pf.nsrc(e.call)[:60]}` is not a literal the analysis can resolve')
+    from engines.sqlast import SqlParseError, parse_statements as _ps
+    try:
+        return _ps(g)
+    except SqlParseError as ex:
+        raise AnalysisError(f'{m.rel}:{e.lineno}: embedded SQL does not parse ({ex})')
+
+
+def _py_args(fn: Optional[pf.FuncDef], e: Optional[ast.AST], depth: int = 4) -> Optional[List[ast.expr]]:
+    """The Python expressions bound to the %s positions, in order: tuple / list literals, `*name` of a local tuple, `a + b`, locals followed."""
+    if e is None or depth <= 0:
+        return None
+    if isinstance(e, ast.Name) and fn is not None:
+        d = pf.single_def(fn, e.id)
+        return _py_args(fn, d, depth - 1) if isinstance(d, ast.expr) else None
+    if isinstance(e, (ast.Tuple, ast.List)):
+        out: List[ast.expr] = []
+        for x in e.elts:
+            if isinstance(x, ast.Starred):
+                sub = _py_args(fn, x.value, depth - 1)
+                if sub is None:
+                    return None
+                out += sub
+            else:
+                out.append(x)
+        return out
+    if isinstance(e, ast.BinOp) and isinstance(e.op, ast.Add):
+        l, r_ = _py_args(fn, e.left, depth - 1), _py_args(fn, e.right, depth - 1)
+        return None if l is None or r_ is None else l + r_
+    if isinstance(e, ast.Call) and isinstance(e.func, ast.Name) and e.func.id in ('tuple', 'list') and len(e.args) == 1 and not e.keywords:
+        return _py_args(fn, e.args[0], depth - 1)
+    return None
+
+
+def _call_args_node(e: sf.Embedded) -> Optional[ast.AST]:
+    if len(e.call.args) > 1:
+        return e.call.args[1]
+    for k in e.call.keywords:
+        if k.arg in ('args', 'params', 'parameters'):
+            return k.value
+    return None
+
+
+def _param_names_of(fn: pf.FuncDef) -> List[str]:
+    return [a.arg for a in fn.args.posonlyargs + fn.args.args + fn.args.kwonlyargs]
+
+
+def _record_field(fn: pf.FuncDef, x: ast.AST) -> Optional[Tuple[str, str]]:
+    """(parameter, key) when x is `<parameter>['key']` (through single-definition locals) and the parameter is never re-bound."""
+    x = pf.expand_locals(fn, x)
+    if isinstance(x, ast.Subscript) and isinstance(x.value, ast.Name) and pf.const_str(x.slice) is not None and x.value.id in _param_names_of(fn):
+        if len(pf.assignments(fn).get(x.value.id, [])) == 1:
+            return (x.value.id, pf.const_str(x.slice))       # type: ignore[return-value]
+    return None
+
+
+def _sql_keymap(fn: pf.FuncDef, e: sf.Embedded, st: N) -> Tuple[Optional[Dict[str, Any]], str]:
+    """column -> Python expression bound to the %s it is compared with, for a WHERE that is a conjunction of `column = %s` (either order).
+    (None, why) when the WHERE clause or the argument tuple has another shape."""
+    params = sr.params_in_order(st)
+    elts = _py_args(fn, _call_args_node(e))
+    if elts is None or len(elts) != len(params):
+        return None, f'the arguments of the statement at line {e.lineno} cannot be bound to its {len(params)} parameters'
+    bind = {id(p): x for p, x in zip(params, elts)}
+    out: Dict[str, Any] = {}
+    for c in sf.conjuncts(st.where):
+        if c.kind == 'bin' and c.op == '=':
+            for a_, b_ in ((c.left, c.right), (c.right, c.left)):
+                if a_.kind == 'col' and b_.kind == 'param':
+                    col = a_.parts[-1].lower()
+                    if col in out:
+                        return None, f'column {col} is constrained twice'
+                    out[col] = bind[id(b_)]
+                    break
+            else:
+                return None, f'WHERE conjunct `{text(c)}` is not `column = %s`'
+        else:
+            return None, f'WHERE conjunct `{text(c)}` is not `column = %s`'
+    return out, ''
+
+
+def _find_compactor(m: pf.Module, outer_name: str, tbl: str) -> Tuple[pf.FuncDef, List[sf.Embedded]]:
+    """The function inside `outer_name` that rewrites `tbl` (whatever it is called), with its embedded statements in source order."""
+    outer = m.func(outer_name)
+    embs = sf.embedded_in(m)
+    cands: Dict[int, Tuple[pf.FuncDef, List[sf.Embedded]]] = {}
+    for e in embs:
+        if e.fn is None or not (e.fn is outer or _inside_fn(m, e.fn, outer)):
+            continue
+        cands.setdefault(id(e.fn), (e.fn, []))[1].append(e)
+    writers = []
+    for fn, es in cands.values():
+        for e in es:
+            try:
+                sts = _emb_stmts(m, e)
+            except AnalysisError:
+                continue
+            if any(t.lower() == tbl for st in sts for t, _ in sf.written_tables(st)):
+                writers.append((fn, sorted(es, key=lambda x: (x.lineno, x.call.col_offset))))
+                break
+    if len(writers) != 1:
+        raise AnalysisError(f'{m.rel}::{outer_name}: expected one function that rewrites {tbl}, found {len(writers)}')
+    return writers[0]
+
+
+def _inside_fn(m: pf.Module, node: ast.AST, outer: ast.AST) -> bool:
+    par = m.parents()
+    cur: Optional[ast.AST] = node
+    while cur is not None:
+        if cur is outer:
+            return True
+        cur = par.get(cur)
+    return False
 
 
 def r5(ctx: Ctx, prog: sf.SqlProgram) -> None:
     m = pf.load('batch/batch/driver/main.py')
     compactors = {'compact_agg_billing_project_users_table.compact': 'aggregated_billing_project_user_resources_v3',
                   'compact_agg_billing_project_users_by_date_table.compact': 'aggregated_billing_project_user_resources_by_date_v3'}
-    embs = sf.embedded_in(m)
+    deferred: List[AnalysisError] = []
     for qual, tbl in compactors.items():
-        fn = m.func(qual)
-        cons = f'{m.rel}::{qual}'
-        ctx.check(any(pf.dotted(d.func) == 'transaction' for d in fn.decorator_list if isinstance(d, ast.Call)), 'R5', cons + '::atomic', 'compaction steps are not inside one @transaction', m.path, fn.lineno)
-        mine = sorted([e for e in embs if e.fn is fn], key=lambda e: e.lineno)
-        sts = [(e, e.stmts()[0]) for e in mine]
-        kinds = [s.kind for _, s in sts]
-        ctx.check(kinds[:3] == ['select', 'delete', 'insert'] and all(k == 'select' for k in kinds[3:]) and all(e.receiver == 'tx' for e in mine), 'R5', cons + '::order',
-                  f'statements run as {kinds} on {[e.receiver for e in mine]}; expected SELECT SUM .. FOR UPDATE, DELETE, INSERT on the transaction, then read-only checks', m.path, fn.lineno)
-        if kinds[:3] != ['select', 'delete', 'insert']:
-            continue
-        (e1, s1), (e2, s2), (e3, s3) = sts[:3]
-        keyc = TABLES[tbl][:]
-
-        def keymap(e: sf.Embedded, st: N) -> Dict[str, str]:
-            params = sr.params_in_order(st)
-            elts = sr.args_tuple(e.fn, e.call.args[1]) or []
-            bind = {id(p): pf.nsrc(x) for p, x in zip(params, elts)}
-            out = {}
-            for c in sf.conjuncts(st.where):
-                if c.kind == 'bin' and c.op == '=' and c.right.kind == 'param':
-                    out[text(c.left).lower().split('.')[-1]] = bind.get(id(c.right), '?')
-            return out
-        want = {k: f"target['{k}']" for k in keyc}
-        k1, k2 = keymap(e1, s1), keymap(e2, s2)
-        inner = sr.unwrap_sum(s1.cols[0][0])
-        ctx.check(k1 == want and s1.lock == 'FOR UPDATE' and inner is not None and text(inner).lower() == 'usage' and sf.table_names(s1.frm) == [tbl] and not s1.group, 'R5', cons + '::sum',
-                  f'the total is not SUM(usage) of exactly the target key read FOR UPDATE (key {k1}, lock `{s1.lock}`)', m.path, e1.lineno)
-        ctx.check(k2 == want and len(sf.conjuncts(s2.where)) == len(keyc) and sf.table_names(s2.frm) == [tbl], 'R5', cons + '::delete', f'rows deleted are not exactly those summed (key {k2})', m.path, e2.lineno)
-        ins, dup, _ = sr.insert_colmap(s3)
-        params = sr.params_in_order(s3)
-        elts = sr.args_tuple(e3.fn, e3.call.args[1]) or []
-        bind = {id(p): pf.nsrc(x) for p, x in zip(params, elts)}
-        got = {c: bind.get(id(v), text(v)) for c, v in ins.items()}
-        sum_var = None
-        par = m.parents().get(e1.call)
-        while par is not None and not isinstance(par, ast.Assign):
-            par = m.parents().get(par)
-        if isinstance(par, ast.Assign):
-            sum_var = pf.nsrc(par.targets[0])
-        alias = s1.cols[0][1] or 'usage'
-        want3 = dict(want)
-        want3['token'] = '0'
-        want3['usage'] = f"{sum_var}['{alias}']"
-        ctx.check(got == want3 and not dup and s3.table.lower() == tbl, 'R5', cons + '::reinsert', f'the compacted row is inserted as {got}; expected {want3}', m.path, e3.lineno)
+        try:
+            _r5_compactor(ctx, m, qual, tbl)
+        except AnchorRemoved:
+            raise
+        except AnalysisError as e:
+            deferred.append(e)
     # closed world
     allowed = {'sql:attempts_after_update', 'sql:attempt_resources_after_insert'} | {f'py:{m.rel}::{q}' for q in compactors}
     from rules.c01 import writers_scan
@@ -620,22 +1163,183 @@ def r5(ctx: Ctx, prog: sf.SqlProgram) -> None:
     for t in ('aggregated_job_group_resources_v3', 'aggregated_job_resources_v3'):
         tables[t] = {'sql:attempts_after_update', 'sql:attempt_resources_after_insert'}
     dirs = ['batch/batch'] if ctx.tier == 'quick' else ['batch', 'gear', 'auth', 'ci', 'monitoring']
+    # the function that rewrites the table is found by what it does; the closed-world scan knows it under its source name
+    renamed: Dict[str, str] = {}
+    for q, t in compactors.items():
+        try:
+            fn, _ = _find_compactor(m, q.split('.')[0], t)
+            real = m.qualname(fn)
+            if real != q:
+                renamed[f'py:{m.rel}::{q}'] = f'py:{m.rel}::{real}'
+        except AnalysisError:
+            pass
+    if renamed:
+        tables = {t: {renamed.get(w, w) for w in ws} for t, ws in tables.items()}
     writers_scan(ctx, prog, dirs, tables, 'R5')
+    if deferred:
+        raise deferred[0]
+
+
+def _r5_compactor(ctx: Ctx, m: pf.Module, qual: str, tbl: str) -> None:
+    outer_name = qual.split('.')[0]
+    fn, mine = _find_compactor(m, outer_name, tbl)
+    cons = f'{m.rel}::{qual}'
+    # statements hidden behind helpers that receive the transaction are not seen here: decline rather than mis-read the order
+    pnames = _param_names_of(fn)
+    ctx.need(bool(pnames), f'{qual}: the compacting function has no parameters')
+    tx = pnames[0]
+    exec_calls = {id(e.call) for e in mine}
+    for n in pf.walk_shallow(fn):
+        if isinstance(n, ast.Call) and id(n) not in exec_calls and any(isinstance(x, ast.Name) and x.id == tx for a_ in list(n.args) + [k.value for k in n.keywords] for x in ast.walk(a_)):
+            raise AnalysisError(f'{qual}: the transaction `{tx}` is handed to `{pf.nsrc(n.func)}`; statements issued there are not followed')
+    decorated = any(pf.dotted(d.func) == 'transaction' for d in fn.decorator_list if isinstance(d, ast.Call))
+    if not decorated:
+        ctx.need(not fn.decorator_list and not any(isinstance(n, (ast.With, ast.AsyncWith)) for n in pf.walk_shallow(fn)) and fn is not m.func(outer_name),
+                 f'{qual}: the compaction steps are not in a function decorated with @transaction(..); how they are made atomic is not analysed')
+    ctx.check(decorated, 'R5', cons + '::atomic', 'compaction steps are not inside one @transaction', m.path, fn.lineno)
+    sts = [(e, _emb_stmts(m, e)) for e in mine]
+    ctx.need(all(len(x) == 1 for _, x in sts), f'{qual}: an execute call carries more than one statement')
+    sts1 = [(e, x[0]) for e, x in sts]
+    kinds = [s_.kind for _, s_ in sts1]
+    recvs = [e.receiver for e in mine]
+    ctx.check(kinds[:3] == ['select', 'delete', 'insert'] and all(k == 'select' for k in kinds[3:]) and all(rv == tx for rv in recvs), 'R5', cons + '::order',
+              f'statements run as {kinds} on {recvs}; expected SELECT SUM .. FOR UPDATE, DELETE, INSERT on the transaction `{tx}`, then read-only checks', m.path, fn.lineno)
+    if kinds[:3] != ['select', 'delete', 'insert']:
+        return
+    (e1, s1), (e2, s2), (e3, s3) = sts1[:3]
+    keyc = TABLES[tbl][:]
+
+    def describe(km: Dict[str, Any]) -> Dict[str, str]:
+        return {c: pf.nsrc(pf.expand_locals(fn, x)) for c, x in km.items()}
+
+    def key_verdict(km: Dict[str, Any]) -> Optional[bool]:
+        """True: column c is bound to <record>['c'] for every key column, one record; False: a resolved binding differs; None: not resolved."""
+        fields = {c: _record_field(fn, x) for c, x in km.items()}
+        if any(v is None for v in fields.values()):
+            return None
+        recs = {v[0] for v in fields.values()}      # type: ignore[index]
+        return set(km) == set(keyc) and len(recs) == 1 and all(fields[c][1] == c for c in km)        # type: ignore[index]
+    k1, why1 = _sql_keymap(fn, e1, s1)
+    k2, why2 = _sql_keymap(fn, e2, s2)
+    ctx.need(k1 is not None, f'{qual}: SUM query: {why1}')
+    ctx.need(k2 is not None, f'{qual}: DELETE: {why2}')
+    v1, v2 = key_verdict(k1), key_verdict(k2)
+    ctx.need(v1 is not None and v2 is not None, f'{qual}: the key values {describe(k1)} / {describe(k2)} are not fields of the record handed to the function')
+    inner = sr.unwrap_sum(s1.cols[0][0]) if len(s1.cols) == 1 else None
+    ctx.need(not s1.group and s1.having is None, f'{qual}: the SUM query has GROUP BY / HAVING; an empty group yields no row - not analysed')
+    ctx.check(bool(v1) and s1.lock == 'FOR UPDATE' and inner is not None and inner.kind == 'col' and inner.parts[-1].lower() == 'usage' and [t.lower() for t in sf.table_names(s1.frm)] == [tbl], 'R5', cons + '::sum',
+              f'the total is not SUM(usage) of exactly the target key read FOR UPDATE (key {describe(k1)}, lock `{s1.lock}`)', m.path, e1.lineno)
+    ctx.check(bool(v2) and [t.lower() for t in sf.table_names(s2.frm)] == [tbl], 'R5', cons + '::delete', f'rows deleted are not exactly those summed (key {describe(k2)})', m.path, e2.lineno)
+    rec1 = {(_record_field(fn, x) or ('?',))[0] for x in k1.values()} | {(_record_field(fn, x) or ('?',))[0] for x in k2.values()}
+    ins, dup, _ = sr.insert_colmap(s3)
+    params = sr.params_in_order(s3)
+    elts = _py_args(fn, _call_args_node(e3))
+    ctx.need(elts is not None and len(elts) == len(params), f'{qual}: the arguments of the INSERT cannot be bound to its {len(params)} parameters')
+    bind = {id(p): x for p, x in zip(params, elts)}         # type: ignore[arg-type]
+    # what each inserted column receives: a Python expression (through %s) or an SQL literal
+    got: Dict[str, Any] = {c: (bind[id(v)] if v.kind == 'param' else v) for c, v in ins.items()}
+    sum_call = e1.call
+    alias = (s1.cols[0][1] or 'usage').lower()
+
+    def is_sum_field(x: Any) -> Optional[bool]:
+        if isinstance(x, N):
+            return False if x.kind == 'lit' else None
+        y = pf.expand_locals(fn, x)
+        if isinstance(y, ast.Subscript) and pf.const_str(y.slice) is not None:
+            base = y.value
+            if isinstance(base, ast.Name):
+                d = pf.single_def(fn, base.id)
+                if isinstance(d, ast.Await):
+                    d = d.value
+                if d is sum_call:
+                    return pf.const_str(y.slice).lower() == alias       # type: ignore[union-attr]
+                if base.id in _param_names_of(fn):
+                    return False            # a field of the target record, not the sum just read
+                if isinstance(d, ast.Call):
+                    return False            # the result of another query
+        if isinstance(y, ast.Constant):
+            return False
+        return None
+
+    def is_zero(x: Any) -> Optional[bool]:
+        if isinstance(x, N):
+            return x.kind == 'lit' and x.value == 0 if x.kind == 'lit' else None
+        y = pf.expand_locals(fn, x)
+        if isinstance(y, ast.Constant):
+            return y.value == 0 and not isinstance(y.value, bool)
+        if _record_field(fn, x) is not None:
+            return False
+        return None
+    keyv: Dict[str, Optional[bool]] = {}
+    for c in keyc:
+        x = got.get(c)
+        if x is None:
+            keyv[c] = False
+        elif isinstance(x, N):
+            keyv[c] = False if x.kind == 'lit' else None
+        else:
+            f = _record_field(fn, x)
+            keyv[c] = None if f is None else (f[1] == c and f[0] in rec1)
+    zv = is_zero(got['token']) if 'token' in got else False
+    uv = is_sum_field(got['usage']) if 'usage' in got else False
+    shown = {c: (text(x) if isinstance(x, N) else pf.nsrc(pf.expand_locals(fn, x))) for c, x in got.items()}
+    allv = list(keyv.values()) + [zv, uv]
+    ctx.need(any(v is False for v in allv) or all(v is True for v in allv), f'{qual}: the values of the re-inserted row {shown} are not resolved')
+    ctx.check(all(v is True for v in allv) and not dup and not s3.ignore and s3.table.lower() == tbl and set(got) == set(keyc) | {'token', 'usage'}, 'R5', cons + '::reinsert',
+              f'the compacted row is inserted as {shown}; expected the target key, token 0 and the sum just read ({alias})', m.path, e3.lineno)
+
+
+def _time_exprs(e: Any, is_time: Any) -> Iterator[N]:
+    """Maximal value expressions over the attempt's timestamps inside a statement: products and comparisons are entered, everything else
+    that reads a timestamp (GREATEST / COALESCE / IF / CASE / + / -) is one duration expression."""
+    if isinstance(e, (list, tuple)):
+        for x in e:
+            yield from _time_exprs(x, is_time)
+        return
+    if not isinstance(e, N):
+        return
+    valueish = e.kind in ('func', 'case', 'cast') and getattr(e, 'name', '') not in ('SUM', 'JSON_OBJECTAGG', 'JSON_OBJECT', 'COUNT', 'MAX', 'MIN', 'CAST') or (e.kind == 'bin' and e.op in ('+', '-'))
+    if valueish and any(n.kind == 'col' and is_time(n) for n in e.walk()) and not any(n.kind in ('select', 'subq') or (n.kind == 'func' and n.name in ('SUM', 'JSON_OBJECTAGG')) for n in e.walk()):
+        yield e
+        return
+    for v in e.fields().values():
+        yield from _time_exprs(v, is_time)
 
 
 def r1_audit(ctx: Ctx) -> None:
     m = pf.load('batch/batch/driver/main.py')
     embs = [e for e in sf.embedded_in(m) if e.qual.startswith('check_resource_aggregation') and e.sql_text and 'rollup_time' in e.sql_text]
     ctx.need(len(embs) >= 2, 'check_resource_aggregation: recomputation queries not found')
-    want = f_text('')
     n = 0
-    for e in embs:
-        for st in e.stmts():
+    undecided: List[str] = []
+    for e in sorted(embs, key=lambda x: x.lineno):
+        for st in _emb_stmts(m, e):
+            attempts_aliases = {'attempts'}
             for node in st.walk():
-                if node.kind == 'func' and node.name == 'GREATEST':
-                    n += 1
-                    ctx.check(text(node) == want, 'R1', f'{m.rel}::check_resource_aggregation::{text(node)[:60]}', f'the audit recomputes the duration as `{text(node)}`, the triggers use `{want}`',
-                              m.path, e.lineno)
+                if node.kind == 'select' and getattr(node, 'frm', None) is not None:
+                    for t in sf.from_tables(node.frm):
+                        if t.kind == 'table' and t.name.lower() == 'attempts':
+                            attempts_aliases.add((t.alias or t.name).lower())
+
+            def sym_of(c: N) -> Optional[str]:
+                if c.kind == 'col' and c.parts[-1].lower() in af.TIME_COLS and (len(c.parts) == 1 or c.parts[-2].lower() in attempts_aliases):
+                    return c.parts[-1].lower()
+                return None
+            for node in _time_exprs(st, lambda c: sym_of(c) is not None):
+                n += 1
+                cons = f'{m.rel}::check_resource_aggregation::duration #{n}'
+                syms = ['start_time', 'rollup_time']
+                extra = sorted({sym_of(c) for c in node.walk() if c.kind == 'col' and sym_of(c) is not None} - set(syms))
+                v = af.compare_value_expr(node, sym_of, syms + extra, lambda row: af.billed_lin(row['start_time'], row['rollup_time']))
+                if v[0] == 'bad':
+                    ctx.bad('R1', cons, f'the audit recomputes the duration as `{text(node)}`, the triggers use GREATEST(COALESCE(rollup_time - start_time, 0), 0): for times {af.realise(v[1])} it yields {v[2]} instead of {v[3]}',
+                            m.path, e.lineno)
+                elif v[0] == 'undecided':
+                    undecided.append(f'check_resource_aggregation: duration expression `{text(node)}`: {v[1]}')
+                else:
+                    ctx.ok('R1', cons, {'expression': text(node), 'ordering_classes': v[1]})
+    if undecided:
+        raise AnalysisError(undecided[0])
     ctx.need(n >= 3, f'only {n} duration expressions in the audit')
 
 
